@@ -31,7 +31,7 @@ PROPS['C27'] = dict(bin='c27', level='fault_enumeration', secs=(20, 300), runs=(
     level_text='fault enumeration: for each sampled operation sequence every crash point is executed; after each the reopened store is checked for durability of acknowledged stores, absence of foreign bytes, the control record, and exact behaviour of further stores',
     level_note='trusted: simfs semantics, the reference model, the kernel; operation sequences are sampled, crash points per sequence are exhaustive')
 
-HOOK_COMMITS = ['63ed43e']
+HOOK_COMMITS = ['63ed43e', 'b55c4fd']
 
 _PURE = 'pure function of its input: no schedule, clock, I/O, fault or crash point can change the result; deciding it means generating inputs, which is not deterministic simulation'
 NOT_APPLICABLE = {
@@ -44,7 +44,35 @@ NOT_APPLICABLE = {
  'C14': 'schema compiler is a batch program whose output is a function of its input files: no schedule, clock or fault dimension',
  'C32': _PURE + ' (XML parser)',
 }
-# properties designed as simulation targets (DESIGN.md section 6) whose checks are not built yet are listed until they are
 PENDING = ['C15','C16','C17','C18','C19','C20','C21','C22','C23','C24','C25','C28','C29','C30','C31']
-for _p in PENDING:
-    if _p not in PROPS: NOT_APPLICABLE[_p] = 'not claimed yet: simulation check designed in DESIGN.md section 6 but not built/validated at this commit'
+
+def _p(pid, **kw):
+    kw.setdefault('level', 'exploration'); kw.setdefault('bin', pid.lower()); kw.setdefault('design_ref', 'DESIGN.md section 6, ' + pid)
+    kw.setdefault('assumptions', COMMON_ASSUME); PROPS[pid] = kw
+
+_p('C30', secs=(25, 420), runs=(200000, 20000000), mix=(3, 6), step_budget=400000,
+    title='The inter-thread queue never loses, duplicates or reorders',
+    technique='deterministic simulation: producers/consumers as real threads serialised by a seeded scheduler (random walk, PCT, run-to-block) that switches at FIX8_VERIF hook points between the atomic steps of the real queue; history oracle over reservation tickets',
+    rule='one evaluation = one seeded world: 1-6 producers and 1-6 consumers (up to 16 tasks in thorough) on ff::uMPMC_Ptr_Queue with small geometry (2-4 sub-queues x 2-8 slots) or on FIX8::ff_unbounded_queue<T*> / <T> with default geometry, 1-6 elements per producer (15% of runs: 10-60 to reach the buffer-switch branches), then a drain; non-trivial = at least 2 tasks, 2 elements and 4 task switches; distinct = distinct event-log hash',
+    real=['ff::uMPMC_Ptr_Queue push/pop', 'ff::uSWSR_Ptr_Buffer / ff::SWSR_Ptr_Buffer / BufferPool', 'FIX8::ff_unbounded_queue<T> and <T*> wrappers, ff allocator (ff_malloc/ff_free)'],
+    stub=['thread scheduling: seeded kernel; 31 hook sites (guard FIX8_VERIF) are the preemption points; retry/spin branches are forced switches'],
+    level_text='seeded exploration of interleavings at hook-site granularity with three scheduling policies; oracle: exactly-once, pop order = ticket (slot reservation) order, per-producer order, no false "empty", empty at the end',
+    level_note='trusted: hook placement (an interleaving that needs a switch between two steps without a hook between them is not explored), sequential consistency; weak-memory effects of the hand-written atomics are out of reach')
+
+_p('C28', secs=(25, 420), runs=(200000, 20000000), mix=(3, 6),
+    title='Loggers write every accepted line exactly once, in order',
+    technique='deterministic simulation: 1-8 producer threads and the real logger thread under the seeded scheduler and simulated clock; stop() injected right after the last send, after K scheduler decisions, or after a simulated delay; history oracle on the captured stream',
+    rule='one evaluation = one seeded world: 1-8 producers each submitting 1-12 (thorough 1-30) lines via send()/enqueue() at enabled and disabled levels, stop() at a seeded moment; non-trivial = at least 2 lines had to appear; distinct = distinct event-log hash',
+    real=['FIX8::Logger enqueue/send/stop/operator()/process_logline', 'FastFlow queue + allocator', 'logger thread (f8_thread)'],
+    stub=['Logger::get_stream() overridden to capture into memory (no file layer in this property)', 'clock and scheduling: simulator'],
+    level_text='seeded exploration of producer/consumer/stop interleavings; oracle: every line whose submit returned before stop() was entered is present when stop() returns, exactly once overall, per-producer order, consecutive sequence field, submit return value',
+    level_note='trusted: kernel; the empty string is the documented stop sentinel and is never submitted as a line; lines submitted after stop() was entered are only checked for duplication')
+
+_p('C31', secs=(20, 300), runs=(400000, 40000000), mix=(3, 6),
+    title='Timer events fire no earlier than scheduled and in due order',
+    technique='deterministic simulation: real Timer<T> thread on the simulated clock (discrete-event time), seeded schedules of schedule()/clear()/waits, optional second scheduling thread; history oracle over callback invocation records',
+    rule='one evaluation = one seeded timeline: 1-12 (thorough 1-20) ops of schedule(delay 1-200 ms, repeat flag, callback result script, callback sleeping 0-8 ms), wait, clear; timer granularity 1/2/5/10 ms; non-trivial = at least 2 events scheduled and 2 callbacks run; distinct = distinct event-log hash',
+    real=['FIX8::Timer<T>::operator()/schedule/clear, TimerEvent ordering, priority queue', 'hypersleep, Tickval clock reads (simulated clock behind link-time wrappers)', 'f8_spin_lock (pthread spin lock, intercepted)'],
+    stub=['callbacks: recording probe methods with scripted results'],
+    level_text='seeded exploration of timelines and interleavings; oracle: never before due time, due-time order among queued+due events, repeat interval and stop-on-false, nothing pending runs after clear() returns, bounded liveness after the last due time',
+    level_note='trusted: simulated clock (no clock jumps injected: the statement does not quantify over them), kernel')
